@@ -62,9 +62,9 @@ def plan(tier, seed):
     descs = [{"kind": "fixed", "i": i, "storages": STORAGES} for i in range(len(FIXED))]
     for i in range(n):
         if tier == "quick":
-            st = ["file_array", "dict"] + (["shared_memory_dict"] if i % 8 == 0 else []) + (["mix"] if i % 4 == 1 else []) + (["dict-nofolder"] if i % 4 == 2 else [])
+            st = ["file_array", "dict"] + (["shared_memory_dict"] if i % 8 == 0 else []) + (["mix"] if i % 4 == 1 else []) + (["dict-nofolder"] if i % 4 == 2 else []) + (["shared_memory_dict-pool"] if i % 16 == 4 else []) + (["file_array-pool"] if i % 16 == 12 else [])
         else:
-            st = ["file_array", "dict", "mix", "dict-nofolder"] + (["shared_memory_dict"] if i % 6 == 0 else [])
+            st = ["file_array", "dict", "mix", "dict-nofolder"] + (["shared_memory_dict"] if i % 6 == 0 else []) + (["shared_memory_dict-pool"] if i % 24 == 1 else []) + (["file_array-pool"] if i % 24 == 2 else [])
         descs.append({"kind": "gen", "seed": seed, "i": i, "storages": st})
     if tier == "thorough":
         descs += [{"kind": "single", "i": i, "storages": ["file_array", "dict"]} for i in range(single_count())]
@@ -172,6 +172,9 @@ def check_run(v, case, st, storage, env, exp_calls, scratch, cfg=""):
     folder = os.path.join(scratch, f"run-{st}")
     if st == "dict-nofolder":  # purely in-memory run: no run folder at all
         folder, storage = None, "dict"
+    parallel = False
+    if st.endswith("-pool"):   # the default process pool (parallel=True, no executor): what is returned AND stored
+        parallel, storage = True, st[:-5]
     try:
         with quiet():
             pipeline = mapgen.build_pipeline(case, log=log)
@@ -182,7 +185,7 @@ def check_run(v, case, st, storage, env, exp_calls, scratch, cfg=""):
     try:
         with quiet():
             res = pipeline.map(inputs, run_folder=folder, internal_shapes=mapgen.internal_shapes_arg(case),
-                               storage=storage, parallel=False)
+                               storage=storage, parallel=parallel)
     except Exception as e:  # noqa: BLE001
         v.bad(exc_sig(e, "refused-map") + f"/{st}", f"valid map refused [{st}]: {exc_msg(e)}",
               case=mapgen.describe(case), storage=str(storage))
@@ -420,7 +423,7 @@ def finalize(agg, tier, seed):
         floors.append("fewer than 30 cases with a numeric input array")
     if agg.counters.get("first_runs_cut_short:unpicklable", 0) < 20 or agg.counters.get("first_runs_cut_short:raise", 0) < 50:
         floors.append("too few faulted-first-run / repeat scenarios")
-    for k in ["runs_file_array", "runs_dict", "runs_shared_memory_dict", "runs_mix", "runs_dict-nofolder"]:
+    for k in ["runs_file_array", "runs_dict", "runs_shared_memory_dict", "runs_mix", "runs_dict-nofolder", "runs_shared_memory_dict-pool", "runs_file_array-pool"]:
         if agg.counters.get(k, 0) < 50:
             floors.append(f"{k}={agg.counters.get(k, 0)} (< 50)")
     return floors, {}
